@@ -767,8 +767,18 @@ func main() {
 	var b strings.Builder
 	b.WriteString("/- GENERATED by harness/cmd/factgen from the repository's current source on every run. Do not edit. -/\n")
 	b.WriteString("namespace PV.Facts\n\n")
+	// a restructured function can make an extraction site match more than once: the generated file must still be
+	// well-formed Lean (the model driver imports it), so a repeated name is emitted under a suffixed name and reported
+	// as an extraction problem (which the property theorems pin to the empty list)
+	seen := map[string]int{}
 	for _, f := range facts {
-		fmt.Fprintf(&b, "/-- %s -/\ndef %s : %s := %s\n\n", f.comment, f.name, f.typ, f.val)
+		name := f.name
+		if n := seen[f.name]; n > 0 {
+			name = fmt.Sprintf("%s_dup%d", f.name, n)
+			problems = append(problems, fmt.Sprintf("fact %s extracted %d times (value %d: %s)", f.name, n+1, n+1, f.val))
+		}
+		seen[f.name]++
+		fmt.Fprintf(&b, "/-- %s -/\ndef %s : %s := %s\n\n", f.comment, name, f.typ, f.val)
 	}
 	qp := make([]string, len(problems))
 	for i, p := range problems {
